@@ -4784,9 +4784,10 @@ class Symbol:
         # Ignore previous symbol's defaults.
         # They'll be added during finalize_node() for completeness, but won't take any effect;
         # First one will be used as it has no condition.
-        dependency = self.kconfig.y
+        # the stored value applies wherever the item is defined: any of its definitions, not all of them at once
+        dependency = self.kconfig.n
         for node in self.nodes:
-            dependency = self.kconfig._make_and(dependency, node.dep)
+            dependency = self.kconfig._make_or(dependency, node.dep)
         self.defaults = [(sym_for_val, dependency)]
 
         # Invalidate recursively to propagate the change to dependent symbols
@@ -6227,9 +6228,10 @@ class Choice:
         # add new symbols, e.g. new default value is a previously unseen string/number.
         parsing_kconfigs = self.kconfig._parsing_kconfigs
         self.kconfig._parsing_kconfigs = True
-        dependency = self.kconfig.y
+        # the stored value applies wherever the item is defined: any of its definitions, not all of them at once
+        dependency = self.kconfig.n
         for node in self.nodes:
-            dependency = self.kconfig._make_and(dependency, node.dep)
+            dependency = self.kconfig._make_or(dependency, node.dep)
         self.defaults = [(sym, dependency)]
         # Invalidate recursively to propagate the change to dependent symbols
         self._rec_invalidate()
